@@ -275,6 +275,42 @@ func (d *c11Drv) evNewSRS(size int, alpha *big.Int) bool {
 	return true
 }
 
+// evToLagrange: ToLagrangeG1 on a copy of the first m points of the reference string in use (known trapdoor): the result
+// is judged against [L_i(tau)]G1, L_i the Lagrange basis of the order-m subgroup generated by the library's Generator(m)
+func (d *c11Drv) evToLagrange(m int) {
+	fn, ok := d.k.Funcs["ToLagrangeG1"]
+	if !ok {
+		return
+	}
+	g1s := d.pk().FieldByName("G1")
+	if m > g1s.Len() {
+		return
+	}
+	in := reflect.MakeSlice(g1s.Type(), m, m+3) // a copy with spare capacity
+	reflect.Copy(in, g1s.Slice(0, m))
+	e := Ev{"op": "ToLagrangeG1", "m": m}
+	if m > 0 && m&(m-1) == 0 {
+		w := d.fr.Funcs["Generator"].Call([]reflect.Value{reflect.ValueOf(uint64(m))})
+		if w[1].IsNil() {
+			e["w"] = digits(d.val(w[0]))
+		}
+	}
+	out, pm, pk := call(fn, in)
+	if pk {
+		e["panic"] = pm
+	} else if msg, bad := c11Err(out[1]); bad {
+		e["err"] = msg
+	} else {
+		res := []any{}
+		for i := 0; i < out[0].Len(); i++ {
+			res = append(res, enc(out[0].Index(i)))
+		}
+		e["out"] = res
+	}
+	d.keyFPs(e)
+	d.emit(e)
+}
+
 func (d *c11Drv) keyFPs(e Ev) {
 	e["pkfp"] = c11FP(d.pk())
 	e["vkfp"] = c11FP(d.vk())
@@ -1161,6 +1197,9 @@ func (d *c11Drv) partSRS() {
 		if !d.evNewSRS(n, a) {
 			continue
 		}
+		for _, m := range []int{1, 2, 3, 4} {
+			d.evToLagrange(m)
+		}
 		p := d.randPoly(n)
 		d.honest("srs", p, []*big.Int{d.rnd(), d.tau}, i%2 == 0)
 		d.honest("srs", d.randPoly(2), []*big.Int{big.NewInt(0)}, false)
@@ -1171,6 +1210,19 @@ func (d *c11Drv) partSRS() {
 
 // partSerial2: round trip of the whole reference string; the copy replaces the string in use, so every later
 // Commit / Open / Verify runs on deserialised keys
+func (d *c11Drv) partLagrange(thorough bool) {
+	if !d.evNewSRS(64, d.rnd()) {
+		return
+	}
+	ms := []int{0, 1, 2, 4, 5, 8, 16}
+	if thorough {
+		ms = append(ms, 32, 48, 64)
+	}
+	for _, m := range ms {
+		d.evToLagrange(m)
+	}
+}
+
 func (d *c11Drv) partSerial2() {
 	if !d.evNewSRS(5, d.rnd()) {
 		return
@@ -1306,6 +1358,7 @@ func runC11(args []string) {
 		run("multi", 3, func(d *c11Drv) { d.partMulti() })
 		run("srs", 4, func(d *c11Drv) { d.partSRS() })
 		run("serial", 5, func(d *c11Drv) { d.partSerial2() })
+		run("lagrange", 7, func(d *c11Drv) { d.partLagrange(thorough) })
 	}
 	fmt.Printf("c11: %d events\n", total)
 }
